@@ -92,7 +92,9 @@ def evaluate(case):
             if rr.crashed:
                 return viol("C01|crash|rdsquashfs-u|" + rr.crash_fingerprint(), rr.err.decode("latin1")[-2000:])
             if rr.rc != 0:
-                # sockets cannot be unpacked? document: rdsquashfs creates them or skips; do not judge the exit status here
+                if not any(n["type"] == "sock" for n in exp.values()) and not any(len(c_) > 255 for p_ in exp for c_ in p_.split(b"/")):
+                    return viol("C01|rdsquashfs-unpack-fails", "rdsquashfs -u / -C -O -T -X exits %d on the image: %s" % (rr.rc, rr.err.decode("latin1")[-500:]))
+                # trees with sockets or with names the host file system cannot hold (> 255 bytes): the exit status is not judged
                 out["unpack_rc"] = rr.rc
             else:
                 bad = compare_unpacked(exp, ud)
